@@ -28,9 +28,13 @@ allr = json.load(open(allp))
 for f in sorted(glob.glob("/var/tmp/lane-*/verif/seeded/RESULTS.json")):
     allr.update(json.load(open(f)))
 json.dump(allr, open(allp, "w"), indent=1, sort_keys=True)
-missed = sorted(k for k, v in allr.items() if not (isinstance(v, dict) and v.get("caught")))
-tie = sorted(k for k, v in allr.items() if isinstance(v, dict) and v.get("caught") and not v.get("with_input"))
-print("total", len(allr), "missed", missed, "tie-only", tie)
+brk = {k: v for k, v in allr.items() if not (isinstance(v, dict) and v.get("harmless"))}
+missed = sorted(k for k, v in brk.items() if not (isinstance(v, dict) and v.get("caught")))
+tie = sorted(k for k, v in brk.items() if isinstance(v, dict) and v.get("caught") and not v.get("with_input"))
+print("total", len(brk), "missed", missed, "tie-only", tie)
+harm = {k: v for k, v in allr.items() if isinstance(v, dict) and v.get("harmless")}
+print("harmless", len(harm), "alarm-with-input", sorted(k for k, v in harm.items() if v["exit"] != 0 and v["with_input"]),
+      "tie-only-alarm", sorted(k for k, v in harm.items() if v["exit"] != 0 and not v["with_input"]))
 PY
 for lane in $(seq 0 $((N - 1))); do
   git -C /repo worktree remove --force /var/tmp/lane-$lane/repo 2>/dev/null
